@@ -214,6 +214,10 @@ func registerMisc(e *Engine) {
 	reg("net/http.NewRequestWithContext", func(th *Thread, fn *ssa.Function, a []Value) Value {
 		return newReq(th, fn, a[1].(*StrVal), a[2].(*StrVal), a[3].(Iface))
 	})
+	reg("(*errors.joinError).Error", func(th *Thread, fn *ssa.Function, a []Value) Value {
+		// the real one builds the text with unsafe.String; texts are not part of any property
+		return concreteStr("<joined errors>")
+	})
 	reg("errors.New", func(th *Thread, fn *ssa.Function, a []Value) Value {
 		cell := new(Value)
 		*cell = Struct{a[0]}
@@ -243,6 +247,11 @@ func (th *Thread) rtypeMethod(o *Opaque, name string) *Native { return th.rtypeM
 func (st *State) ensureInit(th *Thread, pkg *ssa.Package) {
 	if pkg == nil || st.initDone[pkg] {
 		return
+	}
+	if st.spec != nil {
+		// package initialisation has side effects: not inside a speculative
+		// summary (the call is then executed normally, which initialises)
+		panic(specFail{"package initialisation"})
 	}
 	st.initDone[pkg] = true
 	for _, m := range pkg.Members {
